@@ -758,3 +758,72 @@ def r_pipeline_wrapped(cx):
           "Op::op instantiates some pipeline definitions (e.g. those with a single step) as the bare step: `> helmert ..` "
           "then runs in the direction it must be skipped, and its one-way flag leaks to the enclosing pipeline", where)
     cx.count("R-PIPELINE-WRAPPED", "tests", 1)
+
+
+@rule("R-PATH-ORDER", ["C18"])
+def r_path_order(cx):
+    """Plain looks resources up along its search path in order, and the documented order is: the local `./geodesy`
+    first, the per-user data directory second - a project's own definitions shadow the user-wide ones. In
+    `Plain::default` the push of the local path dominates the push of the path derived from `data_local_dir()`."""
+    name = "<context::plain::Plain as std::default::Default>::default"
+    if not cx.f.has_fn(name):
+        cx.ob("R-PATH-ORDER", "anchor", False, "anchor-missing: %s" % name)
+        return
+    f = cx.f.fn(name)
+    local, user = [], []
+    for bb, t in f.calls():
+        if not (f.callee(t) or "").endswith("Vec::<T, A>::push"):
+            continue
+        a = f.arg_terms(bb)
+        v = a[1] if len(a) > 1 else ("unknown",)
+        if v[0] == "refplace" and not v[3]:
+            v = f.local_value(v[2], f.end_point(bb))
+        src = []
+        mir.walk(v, lambda y: (src.append("user") if y[0] == "call" and isinstance(y[1], str) and "data_local_dir" in y[1] else
+                               src.append("local") if y[0] == "const" and y[2] == ("str", ".") else None) or True)
+        if "user" in src:
+            user.append(bb)
+        elif "local" in src:
+            local.append(bb)
+    ok = bool(local) and bool(user) and all(f.dominates(l, u) for l in local for u in user)
+    cx.ob("R-PATH-ORDER", "default/local-first", ok,
+          "the local ./geodesy is pushed onto the search path before the per-user directory" if ok else
+          ("anchor-missing: Plain::default does not build a search path from ./geodesy and data_local_dir()" if not (local and user)
+           else "Plain::default puts the per-user data directory in front of the local ./geodesy: user-wide register items, "
+                "resources and grids shadow the project's own ones of the same name"), cx.where(f.d["span"]))
+    cx.count("R-PATH-ORDER", "path_pushes", len(local) + len(user))
+
+
+@rule("R-OP-NO-REGISTRATION", ["C18", "C14"])
+def r_op_no_registration(cx):
+    """Instantiating an operator does not change what names mean: `Context::op` of Minimal and Plain never registers
+    resources or operators (no call to register_resource / register_op, no insert into the resource or constructor
+    tables). A user macro that shadows a built-in adaptor (`geo:in`) stays in force."""
+    n = 0
+    for impl in ("<context::minimal::Minimal as context::Context>::op", "<context::plain::Plain as context::Context>::op"):
+        if not cx.f.has_fn(impl):
+            cx.ob("R-OP-NO-REGISTRATION", impl, False, "anchor-missing: %s" % impl)
+            continue
+        f = cx.f.fn(impl)
+        n += 1
+        bad = []
+        for bb, t in f.calls():
+            c = (f.callee(t) or "") + " " + (t.get("callee") or "")
+            if "register_resource" in c or "register_op" in c:
+                bad.append(c.split()[0].rsplit("::", 1)[-1])
+            if c.split()[0].endswith("BTreeMap::<K, V, A>::insert"):
+                a = f.arg_terms(bb)
+                fld = []
+                mir.walk(a[0], lambda y: (fld.append(y[2][1]) if y[0] == "proj" and isinstance(y[2], tuple) and y[2][0] == "f" else None) or True)
+                if a[0][0] == "refplace":
+                    fld += [p[1] for p in a[0][3] if isinstance(p, tuple) and p[0] == "f"]
+                adt = cx.f.lib["adts"].get("context::minimal::Minimal" if "minimal" in impl else "context::plain::Plain")
+                names = [x["name"] for x in adt["variants"][0]["fields"]] if adt else []
+                for k in fld:
+                    if k < len(names) and names[k] in ("resources", "constructors"):
+                        bad.append("insert into " + names[k])
+        cx.ob("R-OP-NO-REGISTRATION", impl, not bad,
+              "%s instantiates without registering anything" % impl.split(" as ")[0].strip("<") if not bad else
+              "%s changes the registered resources / operators while instantiating (%s): a user definition of the same name "
+              "is overwritten before it can be used" % (impl, ", ".join(sorted(set(bad)))), cx.where(f.d["span"]))
+    cx.count("R-OP-NO-REGISTRATION", "op_impls", n)
